@@ -8,6 +8,7 @@ import (
 	"pgregory.net/rapid"
 
 	"verifharness/gen"
+	"verifharness/refinflate"
 	"verifharness/synth"
 )
 
@@ -86,9 +87,41 @@ func (s StreamSpec) Build() (z []byte, expected []byte, known bool, err error) {
 					p := m.Pos % len(z)
 					z = append(z[:p], z[p+1:]...)
 				}
+			case "trunchdr":
+				// cut inside (or just past) the header of the first dynamic block; Pos is in permille of that span
+				if len(z) > 0 {
+					r := refinflate.Inflate(z, refinflate.Options{Permissive: true})
+					span := 0
+					for _, b := range r.Blocks {
+						if b.Type == 2 {
+							if b.HeaderEndBit > 0 {
+								span = int(b.HeaderEndBit/8) + 2
+							} else {
+								span = int(b.StartBit/8) + 120
+							}
+							break
+						}
+					}
+					if span == 0 || span > len(z) {
+						span = len(z)
+						if span > 120 {
+							span = 120
+						}
+					}
+					z = z[:m.Pos*span/1000]
+				}
 			case "trunc":
 				if len(z) > 0 {
-					z = z[:m.Pos%len(z)]
+					if m.Pos < 0 {
+						// counted back from the end
+						c := len(z) + m.Pos
+						if c < 0 {
+							c = 0
+						}
+						z = z[:c]
+					} else {
+						z = z[:m.Pos%len(z)]
+					}
 				}
 			}
 		}
